@@ -109,7 +109,7 @@ def PDS_RULES(obj, n_err, seeks, writes, flushes, in_try):
          (r'\berror\((?:"[^"]*"|[^;"])*\);', "K_THROW(0);" if in_try else "K_THROW();", n_err),
          (r"is_null_ptr\(sino_stream\)", "K_IS_NULL_STREAM", (0, 1)), (r"!\*sino_stream", "K_BAD_STREAM", (0, 1)),
          (r"on_disk_data_type\.id != NumericType::FLOAT", "g_nonfloat", (0, 1)),
-         (r"detail::checked_seekp\(\"\w+\", \*sino_stream, get_offset\((\w+)\)\);",
+         (r"detail::checked_seek[pg]\(\"\w+\", \*sino_stream, get_offset\((\w+)\)\);",
           r"{ const long K_o = K_pds_get_offset(self, &\1); %s K_seekp(K_o); %s }" % (prop, prop), seeks),
          (r"sino_stream->flush\(\);", "K_flush();", flushes),
          (r"get_storage_order\(\)", "self->storage_order", None),
@@ -126,10 +126,15 @@ def WRITE(obj_re, shape, ax, vw, tg, n):
             "K_write_data(self, &scale, %d, bin.segment_num, %s, %s, %s)" % (shape, ax, vw, tg), n)
 
 
+def READ(obj_re, shape, ax, vw, seg, n):
+    return (r"read_data\(\*sino_stream, %s, on_disk_data_type, scale, on_disk_byte_order\)" % obj_re,
+            "K_read_data(self, &scale, %d, %s, %s, %s)" % (shape, seg, ax, vw), n)
+
+
 KERNELS += [
     dict(name="K_pds_set_bin_value", file=PDS, cxx_name="ProjDataFromStream::set_bin_value",
          func=r"ProjDataFromStream::set_bin_value\(const Bin& this_bin\)", c_header="void K_pds_set_bin_value(const struct PD* self, const struct Bin* this_bin)", loops=0,
-         rules=[(r"Array<1, float> value\(1\);\s*value\[0\] = this_bin\.get_bin_value\(\);", "", 1), (r"float\(1\)", "1.F", 1),
+         rules=[(r"Array<1, float> value\(1\);\s*value\[0\] = this_bin\.get_bin_value\(\);", "", 1), (r"float\(1\)", "1.F", (0, 1)),
                 (r"write_data\(\*sino_stream, value, on_disk_data_type, scale, on_disk_byte_order\)",
                  "K_write_data(self, &scale, 0, this_bin->segment_num, this_bin->axial_pos_num, this_bin->view_num, this_bin->tangential_pos_num)", 1),
 ]
@@ -142,6 +147,30 @@ KERNELS += [
                 WRITE(r"v\[bin\.axial_pos_num\(\)\]", 1, "bin.axial_pos_num", "bin.view_num", "0", 1), WRITE("v", 2, "0", "bin.view_num", "0", 1)]
          + PDS_RULES("v", (1, 2), 2, 2, (1, 3), True) + PATHRULES(3, 0, 3, 0)
          + [(r",\s*view_num,\s*segment_num,\s*timing_pos\);", ");", None)]),
+    dict(name="K_pds_get_bin_value", file=PDS, cxx_name="ProjDataFromStream::get_bin_value",
+         func=r"ProjDataFromStream::get_bin_value\(const Bin& this_bin\) const", c_header="float K_pds_get_bin_value(const struct PD* self, const struct Bin* this_bin)", loops=0,
+         rules=[(r"Array<1, float> value\(1\);", "", 1), (r"float\(1\)", "1.F", 1), READ("value", 0, "this_bin->axial_pos_num", "this_bin->view_num", "this_bin->segment_num", 1),
+                (r"value \*= scale_factor;", "K_SCALE_OBJECT(g_scale_factor);", 1), (r"return value\[0\];", "return 0.F;", 1)]
+         + PDS_RULES("value", (3, 5), 1, 0, 0, False)
+         + [(r"K_pds_get_offset\(self, &this_bin\)", "K_pds_get_offset(self, this_bin)", 1), (r"K_THROW\(\);", "K_THROW(0.F);", (3, 5)),
+            (r"K_PROPAGATE_OR_RETURN\(\);", "K_PROPAGATE_OR_RETURN(0.F);", 2)]),
+    dict(name="K_pds_get_viewgram", file=PDS, cxx_name="ProjDataFromStream::get_viewgram (from the construction of the viewgram to 'viewgram *= scale_factor;')",
+         func=r"ProjDataFromStream::get_viewgram\(const int view_num,\s*const int segment_num,\s*const bool make_num_tangential_poss_odd,\s*const int timing_pos\) const",
+         span=(r"Viewgram<float> viewgram\(proj_data_info_sptr, view_num, segment_num, timing_pos\);", r"viewgram \*= scale_factor;"),
+         c_header="void K_pds_get_viewgram(const struct PD* self, const int view_num, const int segment_num, const int timing_pos)", loops=1,
+         rules=[(r"Viewgram<float> viewgram\(proj_data_info_sptr, view_num, segment_num, timing_pos\);", "", 1), (r"float\(1\)", "1.F", 1),
+                READ(r"viewgram\[bin\.axial_pos_num\(\)\]", 1, "bin.axial_pos_num", "bin.view_num", "bin.segment_num", 1), READ("viewgram", 2, "0", "bin.view_num", "bin.segment_num", 1),
+                (r"viewgram \*= scale_factor;", "K_SCALE_OBJECT(g_scale_factor);", 1)]
+         + PDS_RULES("v", 2, 2, 0, 0, True) + PATHRULES(3, 0, 3, 0) + [(r"K_THROW\(0\);", "K_THROW();", 2)]),
+    dict(name="K_pds_get_sinogram", file=PDS, cxx_name="ProjDataFromStream::get_sinogram (from the construction of the sinogram to 'sinogram *= scale_factor;')",
+         func=r"ProjDataFromStream::get_sinogram\(const int ax_pos_num,\s*const int segment_num,\s*const bool make_num_tangential_poss_odd,\s*const int timing_pos\) const",
+         span=(r"Sinogram<float> sinogram\(proj_data_info_sptr, ax_pos_num, segment_num, timing_pos\);", r"sinogram \*= scale_factor;"),
+         c_header="void K_pds_get_sinogram(const struct PD* self, const int ax_pos_num, const int segment_num, const int timing_pos)", loops=1,
+         rules=[(r"Sinogram<float> sinogram\(proj_data_info_sptr, ax_pos_num, segment_num, timing_pos\);", "", 1), (r"float\(1\)", "1.F", 1),
+                READ(r"sinogram\[bin\.view_num\(\)\]", 1, "bin.axial_pos_num", "bin.view_num", "bin.segment_num", 1), READ("sinogram", 3, "bin.axial_pos_num", "0", "bin.segment_num", 1),
+                (r"sinogram \*= scale_factor;", "K_SCALE_OBJECT(g_scale_factor);", 1),
+                (r"bin\.view_num\(\)", "bin.view_num", 3), (r"(?<![\w>.])get_(min|max)_view_num\(\)", r"self->\1_view", 2)]
+         + PDS_RULES("s", 2, 2, 0, 0, True) + PATHRULES(0, 1, 0, 0) + [(r"K_THROW\(0\);", "K_THROW();", 2)]),
     dict(name="K_pds_set_segment_by_sinogram", file=PDS, cxx_name="ProjDataFromStream::set_segment(const SegmentBySinogram<float>&) (from 'const int segment_num = ...')",
          func=r"ProjDataFromStream::set_segment\(const SegmentBySinogram<float>& segmentbysinogram_v\)",
          span=(r"const int segment_num = segmentbysinogram_v\.get_segment_num\(\);", r"return set_segment\(segmentbyview\);\s*\}"),
@@ -172,7 +201,7 @@ KERNELS += [
 CHK = ["--signed-overflow-check", "--div-by-zero-check", "--bounds-check", "--pointer-check", "--conversion-check"]
 VT = {"quick": [(1, 2), (3, 5), (4, 4), (8, 16)],
       "thorough": [(v, t) for v in range(1, 9) for t in range(1, 9)] + [(8, 16), (16, 8), (12, 20), (32, 64), (96, 128)]}
-PATH_VT = {"quick": [(3, 5)], "thorough": [(1, 1), (2, 3), (3, 5), (4, 4), (7, 9), (8, 16)]}
+PATH_VT = {"quick": [(3, 5)], "thorough": [(1, 1), (3, 5), (4, 4), (8, 16)]}
 LEMMA_VT = {"quick": [(1, 1), (3, 5), (7, 9), (8, 16), (96, 128)],
             "thorough": [(1, 1), (2, 3), (3, 5), (7, 9), (8, 16), (12, 20), (96, 128), (160, 192), (252, 344)]}
 # the view-order offset lemma contains view * (axial positions of the segment), a product of two symbolic numbers:
@@ -212,9 +241,9 @@ def jobs(tier, gen_dir):
             J("%s/V=%d/T=%d" % (k, V, T), "h_" + k, enforce=k, repl=["K_pdm_get_index"], lc=lc, defs=d, kernels=[k], params={"num_views": V, "num_tangential_poss": T}, shards=SH + 2,
               timeout=900 if tier == "quick" else 2400)
     for V, T in PATH_VT[tier]:
-        for E in ([4] if tier == "quick" else [1, 2, 4]):
+        for E in ([4] if tier == "quick" else [1, 4]):
             d = {"C02_V": V, "C02_T": T, "C02_E": E}
-            for k, lc, rp in (("K_pds_set_bin_value", False, []), ("K_pds_set_viewgram", True, []), ("K_pds_set_sinogram", True, []),
+            for k, lc, rp in (("K_pds_get_bin_value", False, []), ("K_pds_get_viewgram", True, []), ("K_pds_get_sinogram", True, []), ("K_pds_set_bin_value", False, []), ("K_pds_set_viewgram", True, []), ("K_pds_set_sinogram", True, []),
                               ("K_pds_set_segment_by_sinogram", False, ["K_pds_set_segment_by_view"]), ("K_pds_set_segment_by_view", False, ["K_pds_set_segment_by_sinogram"])):
                 J("%s/V=%d/T=%d/E=%d" % (k, V, T, E), "h_" + k, enforce=k, repl=["K_pds_get_offset"] + rp, lc=lc, defs=d, kernels=[k],
                   params={"num_views": V, "num_tangential_poss": T, "bytes_per_element": E}, shards=SH + 2, timeout=900 if tier == "quick" else 2400)
@@ -281,9 +310,9 @@ def replay(job, o, workroot, repo):
         if not exe:
             return {"status": "unavailable", "detail": "replay driver did not build: " + info}
     os.environ.setdefault("STIR_CONFIG_DIR", os.path.join(repo, "src/config"))
-    modes = [["header", workroot]] if "fss" in job.name else [["visible", workroot]] if "K_pds_set" in job.name else []
-    for mode in modes + [["range"], ["paths"]] + ([] if "fss" in job.name else [["header", workroot]]) + ([] if "K_pds_set" in job.name else [["visible", workroot]]):
+    modes = [["header", workroot]] if "fss" in job.name else [["visible", workroot], ["scale", workroot]] if "K_pds_set" in job.name else []
+    for mode in modes + [["range"], ["paths"]] + ([] if "fss" in job.name else [["header", workroot]]) + ([] if "K_pds_set" in job.name else [["visible", workroot], ["scale", workroot]]):
         st, detail = native.run(exe, mode, timeout=900)
         if st == "confirmed":
             return {"status": "confirmed", "detail": detail, "command": "c02_replay " + " ".join(mode), "from_verifier_counterexample": False}
-    return {"status": "not-reproduced", "detail": "c02_replay range; c02_replay paths (in-memory, stream with permuted segment sequence, both storage orders); c02_replay header; c02_replay visible (file-backed, second reader after every write call)"}
+    return {"status": "not-reproduced", "detail": "c02_replay range; c02_replay paths (in-memory, stream with permuted segment sequence, both storage orders); c02_replay header; c02_replay visible (file-backed, second reader after every write call); c02_replay scale (shorts with scale factor 0.5)"}
